@@ -4,7 +4,7 @@ from ..core import Stream, hx
 RULE = ("calc: length strings from the grammar [%]?[-]?digits? dots? ((^|+) part)* (time bases 48..32767, defaults 0..4*tb) through "
         "the real runner::calc_length; judged against the closed form headVal+sumVals (Lean, from the generator's syntax tree) and "
         "compared with the model calcLength on the text. pipeline: `TimeBase l r<L> n60` sources — the tick of the note after the rest "
-        "must be the documented value; bang: !L arguments (TIME(!L), read_arg_value and read_value positions). "
+        "must be the documented value, also with blanks/tabs/bar lines between the parts and '^' parts continued on later lines (after blank lines and comments); bang: !L arguments (TIME(!L), read_arg_value and read_value positions). "
         "non-trivial = distinct (value, number of parts) with >= 1 part or dot")
 ASSUMPTIONS = ["f32 dot arithmetic is exact for |v|*15 < 2^24 (all generated cases); outside that domain the model's exact arithmetic is not claimed",
                "a head value n <= 0 gives 0 and a part value 0 gives the default (code behaviour kept; the grammar's documented domain is n >= 1)"]
@@ -31,7 +31,7 @@ def render(p):
 def syn(p):
     return "%d:%d:%s:%d" % (p["pct"], p["neg"], p["digs"] or "~", p["dots"])
 
-def gen_expr(rng, no_neg_head=False):
+def gen_expr(rng, no_neg_head=False, layout=False):
     h = gen_part(rng, True)
     if no_neg_head: h["neg"] = False
     ps = [(rng.choice("^^^+"), gen_part(rng, False)) for _ in range(rng.choice([0, 0, 1, 1, 2, 3, 6]))]
@@ -40,6 +40,14 @@ def gen_expr(rng, no_neg_head=False):
     # a part consisting of '%' alone followed by nothing numeric is fine ("^%" adds default)
     text = render(h) + "".join(sep + render(p) for sep, p in ps)
     s = syn(h) + "".join(";%d/%s" % (ord(sep), syn(p)) for sep, p in ps)
+    if layout:
+        # inside a source text blanks, tabs and bar lines may stand between the parts, and a part introduced by '^' may stand on a later line
+        # (after blank lines, line comments and range comments)
+        text = render(h)
+        for sep, p in ps:
+            lay = rng.choice(["", " ", "\t", " | ", "  "])
+            if sep == "^" and rng.random() < 0.5: lay = rng.choice(["\n", "\n\n", " \n  ", "\n// k\n", "\n\n\n", "\n/* k */ ", "\n\t\n// a\n// b\n"])
+            text += lay + sep + render(p)
     return text, s, len(ps) + h["dots"]
 
 def streams(tier, rng, P, only=None, cases=None):
@@ -69,10 +77,10 @@ def streams(tier, rng, P, only=None, cases=None):
         cs = []
         n = 3000 if big else 500
         for i in range(n):
-            text, s, k = gen_expr(rng, True)
+            form = rng.choice(["rest", "note", "l", "bang_time", "bang_arg"])
+            text, s, k = gen_expr(rng, True, layout=(form in ("rest", "note", "l") and rng.random() < 0.4))
             tb = rng.choice([48, 96, 120, 480, 960])
             dtext, ds, _ = gen_expr(rng, True)
-            form = rng.choice(["rest", "note", "l", "bang_time", "bang_arg"])
             if form == "rest": src = "TimeBase(%d) l%s r%s n60" % (tb, dtext, text)
             elif form == "note": src = "TimeBase(%d) l%s c%s n60" % (tb, dtext, text)
             elif form == "l": src = "TimeBase(%d) l%s r n60" % (tb, text); ds = None
